@@ -84,8 +84,11 @@ func (ie *ImageExtractor) Extract(node *html.Node) webdoc.Element {
 			ie.processPicture(image)
 		}
 
+		// A <figcaption> that is hidden (itself or through one of its ancestors inside the
+		// figure) is treated like a missing one: the caption is then built from the visible
+		// text of the figure.
 		figCaption := domutil.GetFirstElementByTagName(node, "figcaption")
-		if figCaption == nil {
+		if figCaption == nil || !ie.isVisibleWithin(figCaption, node) {
 			figCaption = ie.createFigCaption(node)
 		} else {
 			links := dom.QuerySelectorAll(figCaption, "a[href]")
@@ -133,6 +136,17 @@ func (ie *ImageExtractor) Extract(node *html.Node) webdoc.Element {
 			PageURL: ie.PageURL,
 		}
 	}
+}
+
+// isVisibleWithin checks that an element and all its ancestors up to
+// (but excluding) root are probably visible.
+func (ie *ImageExtractor) isVisibleWithin(element, root *html.Node) bool {
+	for n := element; n != nil && n != root; n = n.Parent {
+		if n.Type == html.ElementNode && !domutil.IsProbablyVisible(n) {
+			return false
+		}
+	}
+	return true
 }
 
 func (ie *ImageExtractor) findRealFigureImage(figure *html.Node) *html.Node {
